@@ -91,7 +91,17 @@ def arrangements(draw):
         if len(items) == 1:
             return items[0]
         return ["op", op, list(items)]
-    return {"op": op, "a": arrange(ops), "b": arrange(ops), "operands": ops}
+    a, b = arrange(ops), arrange(ops)
+    # the same two arrangements below another node: the order must not depend on where the operator sits (an address under a
+    # slice of a memory read, a branch of a conditional, a part of a concatenation)
+    ctx = draw(st.sampled_from(["top", "top", "top", "address-under-slice", "address", "cond-branch", "compose-part", "slice"])) if w == 32 else "top"
+    wrap = {"top": lambda x: x,
+            "address-under-slice": lambda x: ["slice", ["mem", x, 32, None], 8, 16],
+            "address": lambda x: ["op", "+", [["mem", x, 32, None], ["int", 32, 1]]],
+            "cond-branch": lambda x: ["cond", ["id", "p1", 1], x, ["id", "q32", 32]],
+            "compose-part": lambda x: ["compose", [[["slice", x, 0, 16], 0, 16], [["id", "h16", 16], 16, 32]]],
+            "slice": lambda x: ["slice", x, 8, 24]}[ctx]
+    return {"op": op, "a": wrap(a), "b": wrap(b), "operands": ops, "ctx": ctx}
 
 
 def tie_class(ops):
@@ -106,7 +116,10 @@ def order_oracle(case):
     except Exception:
         return None
     if not (ra == rb) or str(ra) != str(rb):
-        return (("order", case["op"], differing_pair(case)), "%s -> %s   but   %s -> %s" % (sshow(case["a"]), ra, sshow(case["b"]), rb))
+        pair = differing_pair(case)
+        if pair == "multi" and case.get("ctx", "top") != "top":
+            pair = "only-below:" + case["ctx"]
+        return (("order", case["op"], pair), "%s -> %s   but   %s -> %s" % (sshow(case["a"]), ra, sshow(case["b"]), rb))
     return None
 
 
@@ -258,6 +271,14 @@ def corpus(run):
         exprs.append(s)
     collect()
     items += [{"t": "simp", "s": s} for s in exprs]
+    # wide n-ary operators over string-hashed identifiers: any use of a set / dict order inside the simplifier shows here
+    names = ["arg_0", "var_c", "eax", "ebx", "ecx", "edx", "esi", "edi", "ebp", "esp", "tmp1", "tmp2", "x", "y", "zf_1", "loc_8"]
+    for op in ("+", "^", "|", "&", "*"):
+        for n in (9, 12, 16):
+            ids = [["id", nm, 32] for nm in names[:n]]
+            items.append({"t": "simp", "s": ["op", op, ids]})
+            items.append({"t": "simp", "s": ["op", op, ids[::-1]]})
+            items.append({"t": "simp", "s": ["op", op, [["op", op, ids[:n // 2]], ["op", op, ids[n // 2:]]]]})
     cs = x86space.cases("quick", run.seed, thin=run.pick(40, 4)) + x86space.control_flow_cases()[::7] + x86space.x87_cases()[::5]
     items += [{"t": "dis", "b": b.hex()} for b in cs]
     items += emul_corpus(run.pick(60, 600), run.seed)
